@@ -621,13 +621,27 @@ func (c *specCtx) callExpr(x *ast.CallExpr) (tv, error) {
 			n.bound[k] = v
 		}
 		n.bound[vid.Name] = Term{bn, so}
-		body, err := n.trBool(args[1])
+		bodyArg := args[1]
+		trig := ""
+		if len(args) == 3 {
+			// forall_x(v, trigger, body)
+			t, err := n.tr(args[1])
+			if err != nil {
+				return tv{}, err
+			}
+			trig = t.S
+			bodyArg = args[2]
+		}
+		body, err := n.trBool(bodyArg)
 		if err != nil {
 			return tv{}, err
 		}
 		q := "forall"
 		if strings.HasPrefix(name, "exists") {
 			q = "exists"
+		}
+		if trig != "" {
+			return tv{Term{fmt.Sprintf("(%s ((%s %s)) (! %s :pattern (%s)))", q, bn, so, body, trig), SBool}, boolT}, nil
 		}
 		return tv{Term{fmt.Sprintf("(%s ((%s %s)) %s)", q, bn, so, body), SBool}, boolT}, nil
 	case "len":
@@ -674,6 +688,27 @@ func (c *specCtx) callExpr(x *ast.CallExpr) (tv, error) {
 		}
 		dom, _ := vc.keyMap(mt)
 		return tv{Term{fmt.Sprintf("(select (select %s %s) %s)", vc.cur(c.st, dom), m.S, k.S), SBool}, boolT}, nil
+	case "isfresh":
+		// the object was allocated after the reference state (old): call entry / function entry
+		a, err := c.tr(args[0])
+		if err != nil {
+			return tv{}, err
+		}
+		if c.old == nil || c.old.hw == "" {
+			return tv{}, fmt.Errorf("isfresh() not available here")
+		}
+		return tv{Term{fmt.Sprintf("(>= %s %s)", a.S, c.old.hw), SBool}, boolT}, nil
+	case "isempty":
+		m, err := c.tr(args[0])
+		if err != nil {
+			return tv{}, err
+		}
+		mt, ok := m.ty.Underlying().(*types.Map)
+		if !ok {
+			return tv{}, fmt.Errorf("isempty() needs a map")
+		}
+		dom, _ := vc.keyMap(mt)
+		return tv{Term{fmt.Sprintf("(= (select %s %s) ((as const (Array %s Bool)) false))", vc.cur(c.st, dom), m.S, sortOf(mt.Key())), SBool}, boolT}, nil
 	case "int", "int64", "int32", "uint", "uint64", "uint32", "string":
 		return c.tr(args[0])
 	case "deref":
